@@ -14,7 +14,9 @@ import random
 from . import common, gendoc, pipeline
 
 TRIPLES = [('~', '*', ':'), ('!', '|', '>'), ('#', '+', '\\'), ("'", '*', '<'), ('\n', '|', ':'), ('~', '^', '>'), ('$', '*', '@'),
-           ('~', '\x1c', ':'), ('\x1d', '\x1f', '>'), ('\x1e', '*', ':'), ('~', '|', '*'), ('\n', '*', '>')]   # component separator stays inside the character set
+           ('~', '\x1c', ':'), ('\x1d', '\x1f', '>'), ('\x1e', '*', ':'), ('~', '|', '*'), ('\n', '*', '>'),
+           ('~', '*', '+'), ('!', '|', '+'), ('~', '*', '-')]   # component separator stays inside the character set; + and - are
+#            characters int() gives a meaning to (used only when absent from the data, like every delimiter)
 CHUNKINGS = ['whole', 'whole', 'after-terminator', 'inside-linebreak', 'small']
 BREAKS = ['', '\n', '\r', '\r\n']
 
@@ -75,7 +77,7 @@ def inject(text, rnd):
     for _ in range(n):
         j = rnd.randrange(3, max(4, len(segs) - 3))
         f = segs[j].rstrip('~').split('*')
-        k = rnd.choice(('long', 'code', 'drop', 'unk', 'dup', 'del', 'class', 'trail'))
+        k = rnd.choice(('long', 'code', 'drop', 'unk', 'dup', 'del', 'class', 'trail', 'comp', 'cnt', 'bare'))
         kinds.append(k)
         if k == 'long' and len(f) > 1:
             i = rnd.randrange(1, len(f))
@@ -92,6 +94,23 @@ def inject(text, rnd):
             i = rnd.randrange(1, len(f))
             f[i] = ''
             segs[j] = '*'.join(f) + '~'
+        elif k == 'comp' and len(f) > 1:
+            # a simple element given components (or a composite one more): the offending value is then a composite
+            i = rnd.randrange(1, len(f))
+            f[i] = rnd.choice((f[i] + ':Z', ':' + f[i], f[i] + ':1282')) if f[i] else ':Z'
+            segs[j] = '*'.join(f) + '~'
+        elif k == 'cnt':
+            # a count element (SE01 / GE01 / IEA01) with components
+            js = [x for x in range(len(segs)) if segs[x].split('*')[0] in ('SE', 'GE', 'IEA')]
+            if js:
+                j2 = rnd.choice(js)
+                f2 = segs[j2].rstrip('~').split('*')
+                if len(f2) > 1 and ':' not in f2[1]:
+                    f2[1] = rnd.choice((':' + f2[1], f2[1][:1] + ':' + f2[1][1:]))
+                    segs[j2] = '*'.join(f2) + '~'
+        elif k == 'bare':
+            # a segment with no non-empty element: the id alone, or the id and separators only
+            segs[j] = f[0] + rnd.choice(('', '*', '**')) + '~'
         elif k == 'trail':
             segs[j] = segs[j].rstrip('~') + '*' * rnd.choice((1, 2)) + '~'
         elif k == 'unk':
@@ -125,6 +144,10 @@ def observe(text, term, ele, sub, src=None):
             f = s.split(aele)
             if f[0] in ('ISA', 'GS', 'IEA', 'GE', 'TA1'):
                 continue
+            if f[0] in ('AK4', 'IK4') and len(f) > 4:
+                f[4] = canon_value(f[4], ele, sub)        # the echoed offending value keeps the SOURCE's component separator
+            if f[0] == 'CTX':
+                f = [canon_value(x, ele, sub) for x in f]
             body.append('*'.join(x.replace(asub, ':') for x in f))
     return (r.verdict, r.exc[:3] if r.exc else None, errs, body)
 
@@ -155,6 +178,9 @@ def run(tier):
             for (term, ele, sub), brk in encs:
                 if m['icvn'] == '00501' and sub == '^':
                     continue
+                if any(ch in text.replace('~', '').replace('*', '').replace(':', '').replace('\n', '')[106:] for ch in (term, ele, sub)
+                       if ch not in '~*:\n'):
+                    continue        # a delimiter must be absent from the data
                 t2 = reencode(text, term, ele, sub, brk, m['icvn'])
                 how = rnd.choice(CHUNKINGS)
                 got = observe(t2, term, ele, sub, make_source(t2, term, brk, how, rnd))
@@ -162,9 +188,16 @@ def run(tier):
                     e2e_texts.append(t2)
                 res.count()
                 res.distinct((m['map_file'], sd, tuple(kinds), term, ele, sub, brk, how))
+                if ('comp' in kinds or 'cnt' in kinds) and sub in '*~':
+                    # a composite offending value echoed into an acknowledgement whose own element separator / terminator is the
+                    # source's component separator splits there: the listed C06 finding (echo of delimiter characters), not C12's
+                    got = got[:3] + (base[3],)
                 if got != base:
                     diff = [n for n, a, b in zip(('verdict', 'exception', 'errors', 'ack body'), base, got) if a != b]
-                    res.violation('pred:reencoding-changes-%s' % '-'.join(diff).replace(' ', '-'),
+                    key = 'pred:reencoding-changes-%s' % '-'.join(diff).replace(' ', '-')
+                    if 'cnt' in kinds and sub in '+-_' and 'verdict' not in diff and 'exception' not in diff:
+                        key = 'pred:reencoding-changes-count-composite-int'
+                    res.violation(key,
                                   '%s re-encoded with terminator %r separator %r component %r break %r (reads: %s) changes %s' % (
                                       m['map_file'], term, ele, sub, brk, how, diff),
                                   {'map': m['map_file'], 'faults': kinds, 'canonical_document': text, 'reencoded_document': t2,
